@@ -35,6 +35,14 @@ type Input struct {
 	ErrorWithResults bool     `json:"errorWithResults"`
 	DeprecatedCtor   bool     `json:"deprecatedCtor"`
 	IdentityPlugin   bool     `json:"identityPlugin"`
+	// what else is true of the signature (ignored by the model, theorem variant_irrelevant): none of it
+	// may change how revocation is checked or aggregated
+	//   ""                  nothing special
+	//   "expiredSigLogged"  the signature's expiry attribute lies in the past, the level logs expiry
+	//   "expiredChain"      every certificate of the chain has expired; the signing time lies inside the
+	//                       validity (signingAuthority: authentic; x509: the level logs authenticTimestamp)
+	//   "emptySubjectLeaf"  the signing certificate has an empty subject DN (SAN-only certificate)
+	Variant string `json:"variant"`
 }
 
 type Obs struct {
@@ -50,8 +58,9 @@ type Obs struct {
 var target = ocispec.Descriptor{MediaType: "application/vnd.oci.image.manifest.v1+json", Digest: digest.FromString("c05 artifact"), Size: 12}
 
 type world struct {
-	chains map[int]*common.Chain // by length
-	envs   map[string][]byte     // by length/scheme/format
+	chains  map[int]*common.Chain    // by length
+	vchains map[string]*common.Chain // variant chains by variant/length
+	envs    map[string][]byte        // by length/scheme/format
 	// verifiers live as long as the run: one per configuration, reused by every case of that
 	// configuration (a fresh one for every seventh case as control)
 	verifiers map[string]*liveVerifier
@@ -65,7 +74,7 @@ type liveVerifier struct {
 }
 
 func newWorld() *world {
-	w := &world{chains: map[int]*common.Chain{}, envs: map[string][]byte{}, verifiers: map[string]*liveVerifier{}}
+	w := &world{chains: map[int]*common.Chain{}, vchains: map[string]*common.Chain{}, envs: map[string][]byte{}, verifiers: map[string]*liveVerifier{}}
 	nb := time.Now().Add(-48 * time.Hour)
 	for n := 1; n <= 4; n++ {
 		o := common.ChainOpts{Tag: fmt.Sprintf("c05-%d", n), RootNB: nb, InterNB: nb, LeafNB: nb}
@@ -84,8 +93,42 @@ func newWorld() *world {
 
 const identityPluginName = "identity-only-plugin"
 
-func (w *world) env(n int, scheme, format string, plugin bool) []byte {
-	k := fmt.Sprint(n, scheme, format, plugin)
+// chain returns the chain of a case: the standing one, or a variant minted on first use
+func (w *world) chain(n int, variant string) *common.Chain {
+	switch variant {
+	case "expiredChain", "emptySubjectLeaf":
+	default:
+		return w.chains[n]
+	}
+	k := fmt.Sprint(variant, n)
+	if c, ok := w.vchains[k]; ok {
+		return c
+	}
+	o := common.ChainOpts{Tag: fmt.Sprintf("c05-%s-%d", variant, n)}
+	if n == 1 {
+		o.SelfSignedLeaf = true
+	} else {
+		o.Intermediates = n - 2
+	}
+	switch variant {
+	case "expiredChain":
+		nb, na := time.Now().Add(-96*time.Hour), time.Now().Add(-24*time.Hour)
+		o.RootNB, o.InterNB, o.LeafNB, o.RootNA, o.InterNA, o.LeafNA = nb, nb, nb, na, na, na
+	case "emptySubjectLeaf":
+		nb := time.Now().Add(-48 * time.Hour)
+		o.RootNB, o.InterNB, o.LeafNB = nb, nb, nb
+		o.LeafRawSubject = []byte{0x30, 0x00} // an empty RDNSequence
+	}
+	c := common.MakeChain(o)
+	if len(c.Certs) != n {
+		panic("c05: variant chain length")
+	}
+	w.vchains[k] = c
+	return c
+}
+
+func (w *world) env(n int, scheme, format string, plugin bool, variant string) []byte {
+	k := fmt.Sprint(n, scheme, format, plugin, variant)
 	if b, ok := w.envs[k]; ok {
 		return b
 	}
@@ -93,8 +136,16 @@ func (w *world) env(n int, scheme, format string, plugin bool) []byte {
 	if plugin {
 		attrs = []signature.Attribute{{Key: verifier.HeaderVerificationPlugin, Critical: true, Value: identityPluginName}}
 	}
-	b := common.MustSign(common.EnvOpts{Format: format, Chain: w.chains[n], Target: &target, Scheme: scheme, ExtAttrs: attrs,
-		SigningTime: time.Now().Add(-time.Hour).Truncate(time.Second)})
+	o := common.EnvOpts{Format: format, Chain: w.chain(n, variant), Target: &target, Scheme: scheme, ExtAttrs: attrs,
+		SigningTime: time.Now().Add(-time.Hour).Truncate(time.Second)}
+	switch variant {
+	case "expiredSigLogged":
+		o.SigningTime = time.Now().Add(-3 * time.Hour).Truncate(time.Second)
+		o.Expiry = time.Now().Add(-2 * time.Hour).Truncate(time.Second)
+	case "expiredChain":
+		o.SigningTime = time.Now().Add(-48 * time.Hour).Truncate(time.Second)
+	}
+	b := common.MustSign(o)
 	w.envs[k] = b
 	return b
 }
@@ -106,13 +157,13 @@ var methodMap = map[string]revresult.RevocationMethod{"ocsp": revresult.Revocati
 
 func runCase(w *world, in Input, format string) Obs {
 	n := in.ChainLen
-	chain := w.chains[n]
+	chain := w.chain(n, in.Variant)
 	scheme := common.SchemeX509
 	storeType := "ca"
 	if in.Scheme == "signingAuthority" {
 		scheme, storeType = common.SchemeAuthority, "signingAuthority"
 	}
-	env := w.env(n, scheme, format, in.IdentityPlugin)
+	env := w.env(n, scheme, format, in.IdentityPlugin, in.Variant)
 	results := func(c []*x509.Certificate) ([]*revresult.CertRevocationResult, error) {
 		if in.ValidatorError && !in.ErrorWithResults {
 			return nil, errors.New("validator failure")
@@ -136,7 +187,7 @@ func runCase(w *world, in Input, format string) Obs {
 		}
 		return out, nil
 	}
-	key := fmt.Sprint(n, in.Scheme, in.Iface, in.Action, in.IdentityPlugin, in.DeprecatedCtor)
+	key := fmt.Sprint(n, in.Scheme, in.Iface, in.Action, in.IdentityPlugin, in.DeprecatedCtor, in.Variant)
 	w.uses++
 	lv := w.verifiers[key]
 	if lv == nil || w.uses%7 == 0 {
@@ -146,6 +197,20 @@ func runCase(w *world, in Input, format string) Obs {
 		var ov map[trustpolicy.ValidationType]trustpolicy.ValidationAction
 		if in.Action != "enforce" {
 			ov = map[trustpolicy.ValidationType]trustpolicy.ValidationAction{trustpolicy.TypeRevocation: trustpolicy.ValidationAction(in.Action)}
+		}
+		logOther := func(t trustpolicy.ValidationType) {
+			if ov == nil {
+				ov = map[trustpolicy.ValidationType]trustpolicy.ValidationAction{}
+			}
+			ov[t] = trustpolicy.ActionLog
+		}
+		switch in.Variant {
+		case "expiredSigLogged":
+			logOther(trustpolicy.TypeExpiry)
+		case "expiredChain":
+			if in.Scheme != "signingAuthority" {
+				logOther(trustpolicy.TypeAuthenticTimestamp)
+			}
 		}
 		doc := &trustpolicy.OCIDocument{Version: "1.0", TrustPolicies: []trustpolicy.OCITrustPolicy{{
 			Name: "c05", RegistryScopes: []string{"*"},
@@ -217,8 +282,13 @@ func runCase(w *world, in Input, format string) Obs {
 	}
 	for _, r := range outcome.VerificationResults {
 		if r.Type != trustpolicy.TypeRevocation {
-			if r.Error != nil {
+			expected := (in.Variant == "expiredSigLogged" && r.Type == trustpolicy.TypeExpiry) ||
+				(in.Variant == "expiredChain" && in.Scheme != "signingAuthority" && r.Type == trustpolicy.TypeAuthenticTimestamp)
+			if r.Error != nil && !expected {
 				panic(fmt.Sprintf("c05: unexpected %s failure: %v", r.Type, r.Error))
+			}
+			if expected && r.Error == nil {
+				panic(fmt.Sprintf("c05: the %s failure the variant %s is built for did not happen", r.Type, in.Variant))
 			}
 			continue
 		}
@@ -295,6 +365,36 @@ func Run(c *common.Ctx) error {
 								c.Count(fmt.Sprintf("n=%d", n))
 								c.Count("action=" + action)
 							}
+						}
+					}
+				}
+			}
+		}
+	}
+	// other things true of the signature (expired signature under a logging level, expired chain,
+	// empty-subject signing certificate): revocation is checked and aggregated all the same
+	for _, variant := range []string{"expiredSigLogged", "expiredChain", "emptySubjectLeaf"} {
+		for n := 1; n <= 3; n++ {
+			if variant == "emptySubjectLeaf" && n == 1 {
+				continue
+			}
+			for _, vec := range vectors(n) {
+				for _, scheme := range []string{"x509", "signingAuthority"} {
+					for _, iface := range []string{"validator", "client"} {
+						for _, action := range []string{"enforce", "log", "skip"} {
+							if n == 3 && c.Rand.Intn(3) != 0 {
+								continue
+							}
+							in := Input{Vec: vec, ChainLen: n, Scheme: scheme, Iface: iface, Action: action, Variant: variant,
+								ValidatorError: c.Rand.Intn(8) == 0}
+							for k := 0; k < n; k++ {
+								in.Methods = append(in.Methods, methods[c.Rand.Intn(len(methods))])
+								in.ServerErrors = append(in.ServerErrors, c.Rand.Intn(4) == 0)
+							}
+							o := runCase(w, in, common.MediaJWS)
+							c.Emit(in, o)
+							c.Count("variant=" + variant)
+							c.Count("outcome=" + o.Outcome)
 						}
 					}
 				}
